@@ -171,7 +171,7 @@ func cmdCheck(args []string) int {
 	sort.Slice(results, func(i, j int) bool { return results[i].Name < results[j].Name })
 	genS := time.Since(start).Seconds() - loadS
 
-	quickS, fullS := 5, 20
+	quickS, fullS := 5, 45
 	if *tier == "thorough" {
 		quickS, fullS = 10, 120
 	}
